@@ -67,7 +67,7 @@ CLAUSES = {
         "like_escape_literal (LIKE operands); REFUTED INSTANCES (known findings): regex operand LIKE-escaped (C04:regex_operand:like-escaped-value), LIKE operand "
         "under a function left unescaped (C04:like_operand.function_lhs:unescaped-like-pattern) — named rows of known_findings_are_rows, facts like_guards",
     "value read back = value denoted, identifiers":
-        "identifier_quoted (back-ticked names: exact); bare names with upper-case letters are case-folded by the server: identifier_case_folded / c04_full_refuted "
+        "identifier_quoted (back-ticked names: exact); a bare name that is a reserved key word (pgReserved) is a key word token, not an identifier (monitor rule keyword-as-identifier; six known findings at the bare-name sites); bare names with upper-case letters are case-folded by the server: identifier_case_folded / c04_full_refuted "
         "(REFUTED INSTANCES, six known findings *:case-folded-identifier at projection.alias, projection.variable, count_fast_path.alias, "
         "aggregate_traversal_count.alias, builder.v2.alias, builder.v2.scope); exact for an emitter quoting every identifier: identifier_quote_all / c04_fixed",
     "value read back = value denoted, numbers":
@@ -143,6 +143,12 @@ def finding_key(suite, ops, line, msg):
     parts = msg.split()
     cls = parts[1] if len(parts) > 1 else "reject"
     site = _field(msg, "site") or suite["name"]
+    if cls == "keyword-as-identifier":
+        # a name the USER back-ticked (encoding bt) and the translator wrote without quotes is another failure than a
+        # bare name that was never quoted (the registered findings): keyed apart so that the one cannot hide the other
+        op = ops[line].split() if 0 <= line < len(ops) else []
+        if len(op) > 2 and op[0] == "t" and op[2] == "bt":
+            return "C04:%s:%s:backticked-name-written-bare" % (site, cls)
     return "C04:%s:%s" % (site, cls)
 
 
